@@ -350,6 +350,11 @@ def variant(draw, set_names, sets, regs, env, allow_specific=True, max_ops=3, sp
         if nops >= 2 and draw(st.integers(0, 5)) == 0:
             pair = [draw(st.sampled_from(sorted(sets[s]['operand_values']))) for s in oc['operand_sets']['list']]
             oc['operand_sets']['disallowed_pairs'] = [pair]
+            if allow_specific and len(set(pair)) == len(pair) and draw(st.booleans()):
+                # the usual reason to disallow a generic combination: it is listed explicitly with an encoding of its own
+                # (under the very same operand ids)
+                oc.setdefault('specific_operands', {})['spec_d'] = {
+                    'list': {aid: copy.deepcopy(sets[sn]['operand_values'][aid]) for aid, sn in zip(pair, oc['operand_sets']['list'])}}
     v['operands'] = oc
     return v
 
